@@ -267,6 +267,69 @@ impl Cor for Color {
     }
 }
 
+// an upgrade pair of enums: the new side has one more case *inside* the payload of a tuple variant, of a struct
+// variant and of a newtype variant (a value using it must read as None below an option of the old side)
+macro_rules! unit_enum {
+    ($name:ident { $($v:ident),* }) => {
+        #[derive(CandidType, Deserialize, Clone, Debug, PartialEq, Eq, PartialOrd, Ord, Hash)]
+        pub enum $name { $($v),* }
+        impl Cor for $name {
+            fn name() -> String { stringify!($name).into() }
+            fn small() -> Vec<Self> { vec![$($name::$v),*] }
+            fn to_ty(_: &mut Env) -> Ty { Ty::variant(vec![$((idl_hash(stringify!($v)), Ty::Prim(Prim::Null))),*]) }
+            fn to_val(&self) -> Val {
+                match self { $($name::$v => Val::Variant(idl_hash(stringify!($v)), Box::new(Val::Null))),* }
+            }
+        }
+    };
+}
+unit_enum!(KindOld { X, Y });
+unit_enum!(KindNew { X, Y, Z });
+macro_rules! evt_enum {
+    ($name:ident, $kind:ident) => {
+        #[derive(CandidType, Deserialize, Clone, Debug)]
+        pub enum $name {
+            Move(u8, $kind),
+            Turn { by: i8, kind: $kind },
+            Mark($kind),
+            Stop,
+        }
+        impl Cor for $name {
+            fn name() -> String { stringify!($name).into() }
+            fn small() -> Vec<Self> {
+                let mut v = vec![$name::Stop];
+                for k in $kind::small() {
+                    v.push($name::Move(7, k.clone()));
+                    v.push($name::Turn { by: -1, kind: k.clone() });
+                    v.push($name::Mark(k));
+                }
+                v
+            }
+            fn to_ty(env: &mut Env) -> Ty {
+                let k = $kind::to_ty(env);
+                Ty::variant(vec![
+                    (idl_hash("Move"), Ty::tuple(vec![u8::to_ty(env), k.clone()])),
+                    (idl_hash("Turn"), Ty::record(vec![(idl_hash("by"), i8::to_ty(env)), (idl_hash("kind"), k.clone())])),
+                    (idl_hash("Mark"), k),
+                    (idl_hash("Stop"), Ty::Prim(Prim::Null)),
+                ])
+            }
+            fn to_val(&self) -> Val {
+                match self {
+                    $name::Move(a, k) => Val::Variant(idl_hash("Move"), Box::new(Val::tuple(vec![a.to_val(), k.to_val()]))),
+                    $name::Turn { by, kind } => Val::Variant(idl_hash("Turn"), Box::new(Val::record(vec![(idl_hash("by"), by.to_val()), (idl_hash("kind"), kind.to_val())]))),
+                    $name::Mark(k) => Val::Variant(idl_hash("Mark"), Box::new(k.to_val())),
+                    $name::Stop => Val::Variant(idl_hash("Stop"), Box::new(Val::Null)),
+                }
+            }
+        }
+    };
+}
+evt_enum!(EvtOld, KindOld);
+evt_enum!(EvtNew, KindNew);
+cor_struct!(HoldOld { e: Option<EvtOld>, n: u8, m: Option<BTreeMap<String, KindOld>> });
+cor_struct!(HoldNew { e: Option<EvtNew>, n: u8, m: Option<BTreeMap<String, KindNew>> });
+
 // recursive types
 #[derive(CandidType, Deserialize, Clone, Debug)]
 pub struct List<T> {
@@ -574,6 +637,8 @@ pub fn register_same_name(v: &mut Vec<Entry>) {
 /// derived, generic, recursive and reference types
 pub fn register_misc(v: &mut Vec<Entry>) {
     register_same_name(v);
+    reg!(v; KindOld, KindNew, EvtOld, EvtNew, Option<EvtOld>, Option<EvtNew>, Vec<Option<EvtOld>>, Vec<Option<EvtNew>>, HoldOld, HoldNew,
+         Option<BTreeMap<String, KindOld>>, Option<BTreeMap<String, KindNew>>, (Option<EvtOld>, u8), (Option<EvtNew>, u8));
     reg!(v; S0, S1, S2, S3, S4, S5, S6, S7, S8, S9, Renamed, Bytes, Newtype, TupleS, UnitS, E1, Color, Tree, MA, MB, WrapList,
          Vec<S2>, Option<S3>, Vec<E1>, Option<E1>, BTreeMap<u8, E1>, (S1, E1), Vec<Color>, BTreeSet<Color>, BTreeMap<Color, u8>,
          List<S2>, List<Option<Int>>, G<S2>, G<Vec<u8>>, H<E1>, Vec<Tree>, Option<Tree>, Vec<MA>, (MA, MB), Option<MB>,
